@@ -105,4 +105,15 @@ PROPS = {
         "trusted_base": COMMON_TB + SYNTAX_TB + ["external to the model (parameters): serde_yaml (front matter content is not interpreted; metadata and diagnostics that depend on it are excluded from the compared reply), check_std_entry on `>>` values (until the std-metadata model is plugged in its warnings are excluded from the compared reply), unicase folding (table extracted from the real crate on every run), converter key lookup (table extracted from Converter::bundled() on every run)"],
         "assumptions": ['proved for the instance model: replies are independent of history and of any interleaving of calls; the model has no state other than the lazily built fraction table, which parsing never reads', 'cannot be exhibited by the model: data races, memory-model effects, Sync soundness of dependencies, RandomState seeding; observed only (2..16 threads sharing one parser; CooklangParser: Send + Sync is checked by the compiler in the harness)'],
     },
+    "C13": {
+        "gen": [CONSTS, {"script": "gen_stdmeta.py"}],
+        "trusted_base": COMMON_TB + [FLOAT_TB,
+            "translators/gen_stdmeta.py (scrapes the compact-format separators and hour factor, the hard-coded time units, the minute lookup names and the std key tables from src/metadata.rs)",
+            "Basic/Decimal.lean: decimal text -> nearest f64 (used by the f64 instance for number literals; tied to str::parse::<f64> by the correspondence ops)",
+            "modelled, not verified: serde_yaml (the harness hands the model the parsed value: as_u64 and to_string of numbers are inputs), char::is_alphabetic (input: the alphabetic characters of the text), the converter (input: the time units, their ratios and the name index as the real Converter reports them), str routines split/trim/split_whitespace/parse re-implemented in the model and tied by the ops sm_words, sm_trim, sm_u32, sm_f64syn"],
+        "assumptions": ["time theorems are over exact rationals and hold for every converter whose time units have a non-zero ratio",
+                        "char::is_alphabetic(':') is false",
+                        "std saturates decimal exponents beyond 65536 digits of magnitude; the model does not: irrelevant for texts shorter than 65000 characters",
+                        "the oracle stays silent where the documentation does: blank time texts, trimming of quoted list entries in tags, signs/exponents in numbers of minutes, text glued to a servings number"],
+    },
 }
